@@ -160,8 +160,8 @@ def mk(p):
 
 def sections(tier):
     S = run.Section
-    return [S(':'.join(map(str, p)), mk(p), budget_s=170 if tier == 'quick' else 3000, replayer=p[0], config='%dD' % p[1],
-              maxpaths=64, timeout_ms=60000 if tier == 'quick' else 300000) for p in plan(tier)]
+    return [S(':'.join(map(str, p)), mk(p), budget_s=170 if tier == 'quick' else 1200, replayer=p[0], config='%dD' % p[1],
+              maxpaths=64, timeout_ms=60000 if tier == 'quick' else 120000) for p in plan(tier)]
 
 
 def main():
